@@ -558,10 +558,24 @@ func (g groupObs) coq() string {
 	}
 	qs := make([]string, len(g.Queries))
 	for i, q := range g.Queries {
-		qs[i] = fmt.Sprintf("(%s, %s)", coqStr(q.Secret), lib.CoqBool(q.TLS == "true"))
+		qs[i] = fmt.Sprintf("(%s, %s, %s)", coqStr(q.Secret), lib.CoqBool(q.TLS == "true"), cnCert(q.CommonName))
 	}
 	return fmt.Sprintf("(G %s %s %s %s %s %s %s)", lib.CoqZ(g.Now), lib.CoqList(cs), lib.CoqList(g.Frames), lib.CoqBool(g.Closed),
 		lib.CoqList(qs), coqTopics(g.Topics), coqChans(g.Chans))
+}
+
+// the common name the auth server was told, as the test certificate that carries it
+// (client.pem: CN=nsq.io, cert.pem: CN=test.local)
+func cnCert(cn string) string {
+	switch cn {
+	case "nsq.io":
+		return "CertCA"
+	case "test.local":
+		return "CertSelfSigned"
+	case "":
+		return "CertNone"
+	}
+	return "CertNone (* unexpected common name " + strings.ReplaceAll(cn, "*", "") + " *)"
 }
 
 func clientCert(hs string) []tls.Certificate {
@@ -1006,8 +1020,8 @@ func runCase(name string, in CaseIn) result {
 var topics = []string{"tA", "tB", "tC.x", "t-1"}
 var chans = []string{"x", "y", "ch_2"}
 var badNames = []string{"bad$", "", strings.Repeat("a", 65), "sp@ce"}
-var topicPats = []string{".*", "^tA$", "^tB$", "^t", "tA", "t.", "^t.$", "A$", "^tC", "zzz", "", "^t.*x$", "^tA"}
-var chanPats = []string{".*", "^x$", "x", "^$", "^y$", "y*", "^.$", "", "^ch_2$", "zzz"}
+var topicPats = []string{".*", ".*", "^t", "^t", "", "^tA$", "^tB$", "tA", "t.", "^t.$", "A$", "^tC", "zzz", "^t.*x$", "^tA", "^t-*1$"}
+var chanPats = []string{".*", ".*", "", "y*", "^x$", "x", "^$", "^y$", "^.$", "^ch_2$", "zzz", "^ch_.$"}
 var ttls = []int{10, 20, 30, 3600}
 var advs = []int{10, 20, 30, 40, 4000}
 
